@@ -26,7 +26,7 @@ struct Patches {
     poll_read_saturating: bool, // C17-poll-read-saturating.diff
     async_write_vectored: bool, // C17-async-write-vectored.diff
 }
-const REPO_HAS: Patches = Patches { stream_size_hint: false, stream_end_guard: false, poll_read_saturating: false, async_write_vectored: false };
+const REPO_HAS: Patches = Patches { stream_size_hint: true, stream_end_guard: true, poll_read_saturating: true, async_write_vectored: true };
 
 /// The four deviations of /repo HEAD from the property text that the oracle detects
 /// (`stream-size-hint-not-forwarded`, `stream-end-refinishes-finished-bar`,
@@ -35,7 +35,7 @@ const REPO_HAS: Patches = Patches { stream_size_hint: false, stream_end_guard: f
 /// evidence distribution (`unreported-finding:<class>`) but not reported as oracle failures; set it
 /// to `true` as soon as the patches are committed (then nothing is left to report) or the classes are
 /// registered as open findings (then `./check` prints KNOWN-FINDING for them).
-const REPORT_OPEN_FINDINGS: bool = false;
+const REPORT_OPEN_FINDINGS: bool = true;
 
 fn finding(s: &mut Session, class: &str, detail: String, desc: String) {
     if REPORT_OPEN_FINDINGS {
